@@ -34,7 +34,8 @@ ASSUMPTIONS = [
   'a repeated slot name is a FieldReassignError in the real code; the model reports the same error and otherwise keeps the first binding',
 ]
 RULE = ('random construction description: component tree 1-4 deep, slots holding a signal / interface / method port / '
-        'component or a nested list (1-3 dimensions, sometimes ragged, mixed or with empty sub-lists), struct-typed '
+        'component or a nested list (1-3 dimensions, sometimes ragged, mixed, with empty sub-lists, with None holes: '
+        'diagonal / triangle of a grid, whole rows, leading / middle / trailing positions), struct-typed '
         'signals with list fields and nested structs, 0-12 access expressions (field, list-field index, slice, int '
         'index, slice of slice, slice of slice of slice) evaluated inside construct and after elaborate; '
         'non-trivial = has a list slot or a lazily created signal; distinct = distinct canonical description')
@@ -129,7 +130,7 @@ class Gen:
       if r < 0.5: return self.node('ifc', depth + 1)
     return self.leaf(parent_kind == 'ifc')
 
-  def sval(self, parent_kind, depth):
+  def sval_dense(self, parent_kind, depth):
     rng = self.rng
     if rng.random() < 0.6: return ['one', self.obj(parent_kind, depth)]
     ndims = rng.choice([1, 1, 1, 2, 2, 3])
@@ -148,6 +149,49 @@ class Gen:
       n = rng.randint(1 if first else 0, 3)
       return ['many', [build2(d - 1, False) for _ in range(n)]]
     return build2(ndims, True)
+
+  def sval(self, parent_kind, depth):
+    sv = self.sval_dense(parent_kind, depth)
+    if sv[0] == 'many' and self.rng.random() < 0.5: punch_holes(self.rng, sv)
+    return sv
+
+HOLE = ['hole']
+
+def punch_holes(rng, sv):
+  """Replace elements of the (nested) list value by None placeholders: single holes at arbitrary
+  positions (leading / middle / trailing inside sub-lists), whole rows of None, a diagonal or a lower
+  triangle of a 2-D grid, rows replaced by None. The clean code accepts a None anywhere in a list
+  attribute except as element 0 of the attribute's own (outermost) list, where the hook does not walk
+  the list at all (candidate finding, see probe_mixed_list) -- that position is never punched."""
+  mode = rng.random()
+  def lists_of(x, top, acc):
+    if x[0] == 'many':
+      acc.append((x, top))
+      for y in x[1]: lists_of(y, False, acc)
+    return acc
+  ls = lists_of(sv, True, [])
+  rows = [l for l, top in ls if not top]
+  if mode < 0.25 and rows:
+    # crossbar: no self link -> diagonal holes; or upper triangle only
+    tri = rng.random() < 0.5
+    for i, y in enumerate(sv[1]):
+      if y[0] != 'many': continue
+      for j in range(len(y[1])):
+        if (j <= i) if tri else (j == i): y[1][j] = HOLE
+  elif mode < 0.4 and rows:
+    r = rng.choice(rows)
+    for j in range(len(r[1])): r[1][j] = HOLE               # a whole row of None
+  elif mode < 0.5 and len(sv[1]) > 1:
+    sv[1][rng.randrange(1, len(sv[1]))] = HOLE              # a row / element of the outer list is None
+  else:
+    for l, top in ls:
+      for j in range(len(l[1])):
+        if top and j == 0: continue
+        if rng.random() < 0.3: l[1][j] = HOLE
+  if rng.random() < 0.15:
+    l, top = rng.choice(ls)                                 # an extra None (also into an empty sub-list)
+    if not top: l[1].insert(rng.randint(0, len(l[1])), HOLE)
+    elif l[1]: l[1].insert(rng.randint(1, len(l[1])), HOLE)
 
 def gen_case(rng, big=False):
   g = Gen(rng, big)
@@ -169,6 +213,7 @@ def walk_nodes(node, f):
     for _, sv in node[1]: walk_sval(sv, f)
 
 def walk_sval(sv, f):
+  if sv[0] == 'hole': return
   if sv[0] == 'one': walk_nodes(sv[1], f)
   else:
     for x in sv[1]: walk_sval(x, f)
@@ -199,6 +244,7 @@ def static_signals(top):
         if nm in seen or nm.startswith('_'): continue
         seen.add(nm); sval(sv, toks + [['a', nm]])
   def sval(sv, toks):
+    if sv[0] == 'hole': return
     if sv[0] == 'one': node(sv[1], toks)
     else:
       for i, x in enumerate(sv[1]): sval(x, toks + [['i', i]])
@@ -241,6 +287,9 @@ def enc_node(n):
   return ['sig', n[1], enc_ty(n[2])]
 
 def enc_sval(sv):
+  # a None placeholder occupies its index, names nothing and is not an object: for the model that is
+  # exactly an empty sub-list (Model/Hier.lean needs no separate constructor)
+  if sv[0] == 'hole': return ['many']
   if sv[0] == 'one': return ['one', enc_node(sv[1])]
   return ['many'] + [enc_sval(x) for x in sv[1]]
 
@@ -304,6 +353,7 @@ class Emitter:
     return self.cls(n) + '()'
 
   def sval_expr(self, sv):
+    if sv[0] == 'hole': return 'None'
     if sv[0] == 'one': return self.node_expr(sv[1])
     return '[ ' + ', '.join(self.sval_expr(x) for x in sv[1]) + ' ]'
 
@@ -696,7 +746,7 @@ def exhaustive_slice_case(n):
 
 def list_shapes(n):
   """all nested-list values with exactly n nodes (lists + leaves); leaves are numbered later"""
-  if n == 1: return [['leaf'], ['many', []]]
+  if n == 1: return [['leaf'], ['many', []], ['hole']]
   out = []
   def compositions(total, acc):
     if total == 0: yield list(acc); return
@@ -713,6 +763,7 @@ def list_shapes(n):
 def shape_case(shape, variant):
   cnt = [0]
   def conv(x):
+    if x[0] == 'hole': return ['hole']
     if x[0] == 'leaf':
       cnt[0] += 1
       if variant == 0 or cnt[0] % 2: return ['one', ['sig', 'wire', ['bits', 2]]]
@@ -748,21 +799,21 @@ def run(ck):
   for n in range(1, (5 if ck.tier == 'quick' else 7) + 1):
     c = exhaustive_slice_case(n)
     ok, nd, real = one_case(ck, c); ck.count(c, stats(ck, c, real)); nex += 1
-  for n in range(1, (5 if ck.tier == 'quick' else 7) + 1):
+  for n in range(1, (5 if ck.tier == 'quick' else 6) + 1):
     for i, sh in enumerate(list_shapes(n)):
-      if sh[0] == 'leaf': continue
+      if sh[0] != 'many' or (sh[1] and sh[1][0][0] == 'hole'): continue   # element 0 of the outer list is never None
       c = shape_case(sh, i % 2)
       ok, nd, real = one_case(ck, c); ck.count(c, stats(ck, c, real)); nex += 1
   ck.extra_cov['exhaustive_part'] = (f'every slice / int index / slice-of-slice (valid and invalid bounds) of n-bit signals and struct '
-                                     f'fields, n <= {5 if ck.tier == "quick" else 7}; every nested-list shape with <= '
-                                     f'{5 if ck.tier == "quick" else 7} nodes (lists + leaves, empty lists included) as a slot value: {nex} hierarchies')
+                                     f'fields, n <= {5 if ck.tier == "quick" else 7}; every nested-list shape (objects, sub-lists, empty lists, None holes) with <= '
+                                     f'{5 if ck.tier == "quick" else 6} nodes (lists + leaves, empty lists included) as a slot value: {nex} hierarchies')
   for c in CORPUS:
     c = json.loads(json.dumps(c))
     c['bad_exprs'] = []
     ok, nd, real = one_case(ck, c)
     ck.count(c, stats(ck, c, real))
   render_check(ck)
-  total = 1000 if ck.tier == 'quick' else 40000
+  total = 900 if ck.tier == 'quick' else 40000
   budget_s = 45 if ck.tier == 'quick' else 480
   done = 0
   while done < total and ck.elapsed() < budget_s and len(ck.violations) < 20 and len(ck.breaks) < 20:
